@@ -60,6 +60,7 @@ def drive(rec):
     import numpy as np
     n, u = rec["n"], rec["u"]
     t = {"n": n, "gram": rec["gram"], "asym": rec["asym"], "ops": [], "k": rec["k"], "K": rec["K"], "queries": [],
+         "switched": bool(rec.get("via_switch")), "pre": rec.get("pre", {}), "choice": rec["choice"],
          "meta": {"recipe": rec, "source": rec.get("src", "random"), "nontrivial": True,
                   "impl_call": "Crystal(%d %r) radius=%.3f: %s" % (rec["number"], rec["choice"], rec["radius"],
                                                                   ",".join(q["kind"] for q in rec["queries"]))}}
@@ -180,6 +181,28 @@ def gen(args):
         rec["queries"] = [{"kind": "molecule_environments"}, {"kind": "atom_group_surroundings", "atoms": [0, 1, 2]},
                           {"kind": "atomic_surroundings"}]
         return rec
+    elif mode in ("switched-mol", "switched-atomic"):
+        # an object used in hexagonal axes (unit cell, connectivity, molecules, Cartesian operations all computed) and then
+        # switched in place to rhombohedral axes: neighbour queries must describe the crystal in its current setting
+        pq = (rng.randint(1, 6), rng.randint(1, 12))
+        gram = [[18 * pq[0], -9 * pq[0], 0], [-9 * pq[0], 18 * pq[0], 0], [0, 0, 9 * pq[1]]]
+        if mode == "switched-mol":
+            rec_h = xtal.gen_molecular(rng, row, nmols=1, sizes=(2, 3), vol_per_atom=rng.choice([24.0, 32.0]), gram_fn=lambda r: gram,
+                                       max_tries=60)
+            if rec_h is None:
+                return none
+        else:
+            asym = xtal.gen_asym(rng, row["ops"], 12, rng.randint(1, 2), want_special=rng.random() < 0.5)
+            if not asym:
+                return none
+            vol = max(len(row["ops"]) * len(asym) * rng.uniform(8.0, 25.0), 60.0)
+            rec_h = {"number": row["number"], "choice": "H", "n": 12, "gram": gram,
+                     "u": (vol / math.sqrt(xtal.det3(gram))) ** (1.0 / 3.0), "asym": asym, "route": "params"}
+        rec = xtal.switched_recipe(rec_h, table_rows())
+        if rec is None:
+            return none
+        mode = "mol" if mode == "switched-mol" else "atomic"
+        row = dict(row, ops=rec["table_ops"])
     elif mode == "oblique":
         # tiny strongly oblique cell, radius of several cell lengths: the regime where a search box derived
         # from radius/|a_i| instead of radius*|a*_i| loses atoms
@@ -259,6 +282,9 @@ def run(ctx):
             jobs.append((r, ctx.seed * 99991 + i * 13 + k, mode, maxK))
     for j, r in enumerate(special_rows(rows) * ctx.pick(8, 150)):
         jobs.append((r, ctx.seed * 7 + 5000 + j, ("oblique", "oblique-mol", "oblique", "mol")[j % 4], maxK))
+    hex_rows = [r for r in rows if r["number"] in (146, 148, 155, 160, 161, 166, 167) and r["choice"] == "H"]
+    for j in range(ctx.pick(14, 420)):
+        jobs.append((hex_rows[j % len(hex_rows)], ctx.seed * 13 + 7000 + j, "switched-mol" if j % 2 else "switched-atomic", maxK))
     tri = [r for r in rows if r["number"] in (1, 2)]
     for j in range(ctx.pick(40, 1200)):
         jobs.append((tri[j % len(tri)], ctx.seed * 11 + 9000 + j, "mol-long", maxK))
